@@ -231,8 +231,31 @@ static uint8_t *gen_chunk(unsigned seed, size_t n) {
     }
     return b;
 }
+/* the digest of a file of a megabyte and more is remembered as long as the file (device, inode, size, modification and
+ * change time) stays what it was: the tree is looked at after every call, and re-reading a 129 MiB file each time is what
+ * made the large-file executions take minutes */
+static struct {
+    dev_t dev;
+    ino_t ino;
+    off_t size;
+    struct timespec mt, ct;
+    struct dg d;
+    bool used;
+} dg_cache[4];
 static int file_dg(const char *path, struct dg *d) {
     dg_init(d);
+    struct stat st;
+    bool big = stat(path, &st) == 0 && S_ISREG(st.st_mode) && st.st_size >= (1 << 20);
+    if (big) {
+        for (int i = 0; i < 4; ++i) {
+            if (dg_cache[i].used && dg_cache[i].dev == st.st_dev && dg_cache[i].ino == st.st_ino && dg_cache[i].size == st.st_size &&
+                dg_cache[i].mt.tv_sec == st.st_mtim.tv_sec && dg_cache[i].mt.tv_nsec == st.st_mtim.tv_nsec &&
+                dg_cache[i].ct.tv_sec == st.st_ctim.tv_sec && dg_cache[i].ct.tv_nsec == st.st_ctim.tv_nsec) {
+                *d = dg_cache[i].d;
+                return 0;
+            }
+        }
+    }
     FILE *f = fopen(path, "rb");
     if (!f) {
         return -1;
@@ -243,6 +266,17 @@ static int file_dg(const char *path, struct dg *d) {
         dg_add(d, buf, k);
     }
     fclose(f);
+    if (big) {
+        static int next;
+        int i = next++ % 4;
+        dg_cache[i].used = true;
+        dg_cache[i].dev = st.st_dev;
+        dg_cache[i].ino = st.st_ino;
+        dg_cache[i].size = st.st_size;
+        dg_cache[i].mt = st.st_mtim;
+        dg_cache[i].ct = st.st_ctim;
+        dg_cache[i].d = *d;
+    }
     return 0;
 }
 
